@@ -831,6 +831,10 @@ func (self *PathNode) handleChild(in *[]PathNode, lp *int, cp *int, p *thrift.Bi
 		}
 		p.Buf = buf
 		p.Read = ss + p.Read
+		if opts.NotScanParentNode && len(v.Next) == 0 {
+			// an empty container has no children to marshal it from: keep its own bytes
+			v.Node = self.slice(ss, p.Read, et)
+		}
 	}
 
 	*in = con
